@@ -69,7 +69,8 @@ def _worker(job):
                 out['functions'].append(si)
             except KeyError as e:
                 out['error'] = 'locator does not resolve: %s' % q
-        out['assumptions'] = list(getattr(c, 'assumptions', ())) + ['abstracted: ' + a for a in getattr(c, 'abstracted', ())]
+        out['assumptions'] = (list(getattr(c, 'assumptions', ())) + ['abstracted: ' + a for a in getattr(c, 'abstracted', ())]
+                              + ['not claimed: ' + v for v in getattr(c, 'unclaimed_outcomes', {}).values()])
         for r in results:
             d = r.to_json()
             d['contract'] = c.name
@@ -95,6 +96,42 @@ def _worker(job):
         out['error'] = '%s: %s' % (type(e).__name__, e)
         out['traceback'] = traceback.format_exc()[-1500:]
     out['seconds'] = time.time() - t0
+    return out
+
+
+def self_test(pid):
+    """Thorough tier: does the check still bite?  Every seeded property-breaking change kept under seeded/<pid>-*/ is applied
+    to a scratch copy of the tree under test (outside /repo and /verif, removed afterwards) and the quick check is run on
+    it; it must not come out green.  A change that no longer applies to the current tree is skipped and said so."""
+    import glob
+    import shutil
+    import tempfile
+    out = []
+    for d in sorted(glob.glob(os.path.join(VERIF, 'seeded', pid + '-*'))):
+        patch = os.path.join(d, 'patch.diff')
+        if not os.path.exists(patch):
+            continue
+        scratch = tempfile.mkdtemp(prefix='verif_selftest_')
+        rec = {'change': os.path.basename(d)}
+        try:
+            shutil.copytree(os.path.join(REPO, 'streamz'), os.path.join(scratch, 'streamz'),
+                            ignore=shutil.ignore_patterns('__pycache__', '*.pyc'))
+            ap = subprocess.run(['git', 'apply', '--whitespace=nowarn', patch], cwd=scratch, capture_output=True, text=True)
+            if ap.returncode != 0:
+                rec.update({'applied': False, 'note': 'patch does not apply to the current tree: ' + ap.stderr.strip()[:200]})
+            else:
+                env = dict(os.environ, VERIF_REPO=scratch, VERIF_TIER='quick')
+                env.pop('PYVC_CROSS', None)
+                p = subprocess.run([sys.executable, '-m', 'pyvc.runner', pid, '--no-evidence', '--tier', 'quick', '--no-self-test'],
+                                   cwd=VERIF, env=env, capture_output=True, text=True, timeout=3000)
+                viol = [l for l in p.stdout.splitlines() if l.startswith('VIOLATION')]
+                rec.update({'applied': True, 'exit': p.returncode, 'detected': p.returncode != 0,
+                            'violation_lines': [v.replace(scratch, '<scratch>') for v in viol][:6]})
+        except Exception as e:
+            rec.update({'applied': None, 'note': 'self-test could not run: %r' % (e,)})
+        finally:
+            shutil.rmtree(scratch, ignore_errors=True)
+        out.append(rec)
     return out
 
 
@@ -128,6 +165,7 @@ def main(argv=None):
     ap.add_argument('--jobs', type=int, default=int(os.environ.get('PYVC_JOBS', '16')))
     ap.add_argument('--only', default=None, help='comma separated contract class names')
     ap.add_argument('--no-evidence', action='store_true')
+    ap.add_argument('--no-self-test', action='store_true')
     args = ap.parse_args(argv)
     pid = args.property
     seed = int(os.environ.get('VERIF_SEED', '0'))
@@ -140,6 +178,8 @@ def main(argv=None):
     if not jobs:
         print('checker error: no contract serves %s' % pid)
         return 3
+    if args.tier == 'thorough':
+        os.environ['PYVC_CROSS'] = '1'        # every z3 proof is put to cvc5 as well (pyvc/contract.py: check_valid)
     # one fresh process per contract: fresh z3 context and fresh-name counter, so verdicts do not depend on which other
     # contracts happened to run in the same worker before
     with mp.Pool(min(args.jobs, len(jobs)), maxtasksperchild=1) as pool:
@@ -152,6 +192,13 @@ def main(argv=None):
             extra.update(r.get('coverage', {}))
             extra_viol.extend(r.get('violations', []))
             extra_err.extend(r.get('errors', []))
+    selftest = []
+    if args.tier == 'thorough' and not args.no_self_test:
+        selftest = self_test(pid)
+        for rec in selftest:
+            if rec.get('applied') and not rec.get('detected'):
+                extra_err.append('self-test: the seeded change %s is no longer detected (check came out green on it)' % rec['change'])
+        extra['self_test_on_seeded_changes'] = selftest
     known_path = os.path.join(VERIF, 'known_findings.json')
     known = json.load(open(known_path)) if os.path.exists(known_path) else []
     known = known.get('findings', []) if isinstance(known, dict) else known
@@ -165,6 +212,8 @@ def main(argv=None):
         for n, ok in o['info'].get('cover', []):
             if not ok:
                 errors.append('%s: cover check failed: %s' % (o['contract'], n))
+        for u in o['info'].get('uncovered', []):
+            errors.append('%s: outcome not covered by any clause: %s' % (o['contract'], u))
         for r in o['results']:
             all_res.append(r)
             if r['status'] == 'error':
